@@ -182,7 +182,7 @@ Proof.
   set (k := Int_part (d * IZR (n - 1) + / 2)) in *. clearbody k.
   split.
   - assert (-1 < IZR k)%R by lra. apply lt_IZR in H. lia.
-  - assert (IZR k < IZR n)%R by (rewrite minus_IZR in Hx; lra). apply lt_IZR in H. exact H.
+  - assert (IZR k < IZR n)%R by (pose proof (minus_IZR n 1) as E; lra). apply lt_IZR in H. exact H.
 Qed.
 
 (* ---------------- binary32 *)
